@@ -199,3 +199,118 @@ def show(desc):
         else:
             parts.append('%s%s(%s)' % (d[0], tuple(d[1:-1]), show(d[-1])))
     return ' > '.join(parts)
+
+
+# ---------------------------------------------------------------- program generator
+
+STATELESS = ['map_inc', 'filter_even', 'filter_pos', 'clip', 'identity', 'do_action', 'star', 'assert_ok']
+INT_LEAVES = [k for k in LEAVES if k not in ('progress',)]
+KEYED = [
+    ('group', 'mod2'), ('group', 'tup2'), ('roll', 2, 2), ('roll', 2, 1), ('roll', 3, 2), ('roll', 2, 3), ('roll', 1, 1),
+    ('split', 'tup3'), ('split', 'div3'), ('tsplit', 3, 2, False, True), ('tsplit', None, 2, True, True), ('tsplit', 3, None, True, False),
+]
+
+
+def overlapping(d):
+    return d[0] == 'roll' and d[1] > d[2]
+
+
+def gen(r, depth, mux_only_ok=True, length=None):
+    """random type-correct (int -> int) pipeline descriptor.  After a keyed
+    operator whose lifetimes overlap (roll with window > stride) only stateless
+    operators follow: the delivery order between different lifetimes inside one
+    source event is not specified, so order-sensitive continuations are not
+    comparable with a reference."""
+    leaves = INT_LEAVES if mux_only_ok else [k for k in INT_LEAVES if LEAVES[k][2]]
+    n = length or r.choice([1, 1, 2, 2, 3])
+    out = []
+    stateless_only = False
+    for _ in range(n):
+        if stateless_only:
+            out.append([r.choice(STATELESS)])
+            continue
+        c = r.random()
+        if depth <= 0 or c < 0.5:
+            out.append([r.choice(leaves)])
+        elif c < 0.65:
+            j = r.choice(['zip', 'merge', 'combine_latest'])
+            nb = r.choice([2, 2, 3])
+            out.append(['tee', j, [gen(r, depth - 1, mux_only_ok, length=r.choice([1, 1, 2])) for _ in range(nb)]])
+        elif mux_only_ok:
+            k = r.choice(KEYED)
+            inner = gen(r, depth - 1, True, length=r.choice([1, 1, 2]))
+            d = list(k) + [inner]
+            out.append(d)
+            if overlapping(d) or _has_overlap(inner):
+                stateless_only = True
+        else:
+            out.append([r.choice(leaves)])
+    return out
+
+
+def _has_overlap(desc):
+    for d in desc:
+        if isinstance(d, str) or d[0] in LEAVES:
+            continue
+        if d[0] == 'tee':
+            if any(_has_overlap(b) for b in d[2]):
+                return True
+        else:
+            if overlapping(d) or _has_overlap(d[-1]):
+                return True
+    return False
+
+
+def has_tsplit(desc):
+    for d in desc:
+        if isinstance(d, str) or d[0] in LEAVES:
+            continue
+        if d[0] == 'tsplit':
+            return True
+        if d[0] == 'tee':
+            if any(has_tsplit(b) for b in d[2]):
+                return True
+        elif has_tsplit(d[-1]):
+            return True
+    return False
+
+
+def depth_of(desc):
+    m = 0
+    for d in desc:
+        if isinstance(d, str) or d[0] in LEAVES:
+            m = max(m, 1)
+        elif d[0] == 'tee':
+            m = max(m, 1 + max(depth_of(b) for b in d[2]))
+        else:
+            m = max(m, 1 + depth_of(d[-1]))
+    return m
+
+
+BRANCH = {'filter_even': 2, 'filter_odd': 2, 'filter_pos': 2, 'scan_max': 2, 'min': 2, 'max_r': 2, 'duc': 2, 'duc_k': 2, 'clip': 3,
+          'distinct': 2, 'fill_none': 1}
+KBRANCH = {'mod2': 2, 'tup2': 2, 'big2': 2, 'flt2': 2, 'str2': 2, 'mod3': 3, 'tup3': 3, 'div3': 2}
+
+
+def branching(desc):
+    """rough number of solver-feasible alternatives per source item (path-count rule of DESIGN 3.2)"""
+    b = 1
+    for d in desc:
+        if isinstance(d, str):
+            d = [d]
+        k = d[0]
+        if k in LEAVES:
+            b *= BRANCH.get(k, 1)
+            if k == 'flat':
+                b *= 1
+        elif k == 'tee':
+            for br in d[2]:
+                b *= branching(br)
+        elif k in ('group', 'split'):
+            b *= KBRANCH.get(d[1], 2) * branching(d[-1])
+        elif k == 'roll':
+            inner = branching(d[-1])
+            b *= inner ** (-(-d[1] // d[2]))
+        elif k == 'tsplit':
+            b *= 3 * branching(d[-1])
+    return b
